@@ -978,7 +978,7 @@ static int parse_data(vnacal_load_state_t *vlsp, const vnacal_layout_t *vlp,
 		    vcp->vc_filename, child->start_mark.line + 1);
 	    return -1;
 	}
-	if (findex > 1 &&
+	if (findex > 0 &&
 		frequency <= calp->cal_frequency_vector[findex - 1]) {
 	    _vnacal_error(vcp, VNAERR_SYNTAX,
 		    "%s (line %ld) error: frequencies are not in "
